@@ -109,9 +109,79 @@ def large_sparse_jacobian(ctx):
     ctx.sample = {"family": "large sparse Jacobian", "size": n, "policy": policy, "sequence": seq}
 
 
+def factory_discipline_history(ctx):
+    """"For every discipline": a class of the discipline factory (those that need no argument) with a cache, against
+    an uncached twin of the same class running the same history of executions and linearizations."""
+    import numpy as np
+
+    from gemseo.core.discipline import Discipline
+    from gemseo.disciplines.factory import DisciplineFactory
+    from gemseo.utils.singleton import SingleInstancePerFileAttribute
+
+    from .c20_pickle import factory_catalogue
+
+    t = ctx.tape
+    cat = [c for c in factory_catalogue() if c[0] != "DensityFilter"]  # (its 10^4 x 10^4 Jacobian: see the large-sparse family)
+    name, lin_ok = cat[t.choice(len(cat), "factory_index")]
+    policy = t.pick(["SimpleCache", "MemoryFullCache", "HDF5Cache"], "policy")
+    SingleInstancePerFileAttribute.instances.clear()
+    fac = DisciplineFactory()
+    d, twin = fac.create(name), fac.create(name)
+    twin.set_cache(Discipline.CacheType.NONE)
+    if policy == "HDF5Cache":
+        d.set_cache("HDF5Cache", hdf_file_path=str(ctx.scratch / "fac.h5"), hdf_node_path="n")
+    else:
+        d.set_cache(policy)
+    base = {k: np.array(v, dtype=float, copy=True) for k, v in d.io.input_grammar.defaults.items() if isinstance(v, np.ndarray) and v.dtype.kind in "fi"}
+    pool = [{}, {k: v * 1.02 for k, v in base.items()}, {k: v * 0.97 for k, v in base.items()}]
+    iterative = "MDA" in name or "Chain" in name
+    rtol = 1e-5 if iterative else 1e-12
+    sig = f"factory discipline {name} {policy}"
+    ops = []
+    for i in range(t.randint(2, 6, "n_ops")):
+        with t.frame("op"):
+            k = t.choice(3, "input")
+            lin = lin_ok and t.flag(0.5, "linearize")
+            ops.append(("lin" if lin else "exec", k))
+            res = []
+            for obj in (twin, d):
+                inp = {n: v.copy() for n, v in pool[k].items()}
+                if lin:
+                    jac = obj.linearize(inp, compute_all_jacobians=True)
+                    res.append({o: {i_: dense(v) for i_, v in jo.items()} for o, jo in jac.items()})
+                else:
+                    out = obj.execute(inp)
+                    res.append({n: np.array(out[n], copy=True) for n in obj.io.output_grammar.names if n in out})
+            exp, got = res
+            if lin:
+                bad = [(o, i_) for o in exp for i_ in exp[o] if o not in got or i_ not in got[o] or got[o][i_].shape != exp[o][i_].shape
+                       or not np.allclose(got[o][i_], exp[o][i_], rtol=rtol, atol=rtol)]
+                if bad:
+                    o, i_ = bad[0]
+                    ctx.violate("C05.jacobian_equal_uncached", sig, f"after {ops}: d{o}/d{i_} differs from the uncached twin (max difference "
+                                f"{abs(got[o][i_] - exp[o][i_]).max() if o in got and i_ in got[o] and got[o][i_].shape == exp[o][i_].shape else 'shape'})")
+            else:
+                bad = [n for n in exp if n not in got or np.asarray(got[n]).shape != np.asarray(exp[n]).shape or not np.allclose(np.asarray(got[n], dtype=float), np.asarray(exp[n], dtype=float), rtol=rtol, atol=rtol)]
+                if bad:
+                    ctx.violate("C05.outputs_equal_uncached", sig, f"after {ops}: output {bad[0]} = {got.get(bad[0])} differs from the uncached twin {exp[bad[0]]}")
+    SingleInstancePerFileAttribute.instances.clear()
+    ctx.event("ops", name, policy, tuple(ops))
+    ctx.probe("factory_discipline_histories")
+    ctx.case(("factory", name, policy, tuple(ops)), nontrivial=len(set(k for _, k in ops)) >= 2)
+    ctx.sample = {"family": "factory discipline against an uncached twin", "class": name, "policy": policy, "ops": [list(o) for o in ops]}
+
+
+def warmup():
+    from .c20_pickle import factory_catalogue
+
+    factory_catalogue()
+
+
 def run(ctx):
     if ctx.tape.flag(0.01, "large_sparse_jacobian"):
         return large_sparse_jacobian(ctx)
+    if ctx.tape.flag(0.08, "factory_discipline"):
+        return factory_discipline_history(ctx)
     if ctx.tape.flag(0.2, "cache_protocol_history"):
         return api_history(ctx)
     from gemseo.core.discipline import Discipline
